@@ -40,7 +40,7 @@ func init() {
 			"plus missing/malformed bounds; distinct = shape hash (layout, placement, n, target, bound kind, offset class, forms, outcome); non-trivial = the SP took a decision",
 		Directed:   c05Directed,
 		Run:        c05Run,
-		MustHit:    []string{"delay_to_bound", "offset=0", "offset=+1ns", "offset=-1ns", "kind=sc-nooa", "kind=cond-nb", "kind=cond-nooa", "bad_bound", "conditions_element_absent", "skewed_clock", "non_utc_location", "redelivery_after_expiry"},
+		MustHit:    []string{"delay_to_bound", "offset=0", "offset=+1ns", "offset=-1ns", "kind=sc-nooa", "kind=cond-nb", "kind=cond-nooa", "bad_bound", "conditions_element_absent", "bounds_centuries_away", "skewed_clock", "non_utc_location", "redelivery_after_expiry"},
 		RandomRuns: map[string]int{"quick": 8000, "thorough": 60000},
 		Assumptions: []string{
 			"RFC 3339 grey areas (leap seconds, lower-case t/z, hour 24) are not generated",
@@ -159,6 +159,27 @@ func c05Run(r *core.Run) {
 				bs[i].sc = world.TruncTo(bs[target].sc.Add(time.Duration(3+i)*time.Second), fs[i])
 			}
 		}
+	}
+	// bounds centuries away from the clock (IdPs that write "since ever" / "for ever"): further than a
+	// time.Duration can express, so only instant comparison gives the right answer
+	if ext := t.Int(8, "c05.extreme"); ext >= 1 && ext <= 3 {
+		past := []time.Time{time.Date(1, 1, 2, 0, 0, 0, 0, time.UTC), time.Date(1700, 1, 1, 0, 0, 0, 0, time.UTC), time.Date(1900, 3, 1, 12, 0, 0, 0, time.UTC)}[t.Int(3, "c05.extreme.past")]
+		future := []time.Time{time.Date(9998, 6, 1, 0, 0, 0, 0, time.UTC), time.Date(2500, 1, 1, 0, 0, 0, 0, time.UTC)}[t.Int(2, "c05.extreme.future")]
+		boundary := offIdx >= 1 && offIdx <= 5
+		for i := range bs {
+			if ext&1 != 0 && !(boundary && kind == c05KindNB && i == target) {
+				bs[i].nb = past
+			}
+			if ext&2 != 0 {
+				if !(boundary && kind == c05KindCNOOA && i == target) {
+					bs[i].cnooa = future
+				}
+				if !(boundary && kind == c05KindSC) {
+					bs[i].sc = future
+				}
+			}
+		}
+		r.Probe("bounds_centuries_away")
 	}
 	for i, a := range m.Assertions {
 		a.NotBefore = strp(world.RenderInstant(bs[i].nb, fs[i]))
@@ -300,6 +321,9 @@ func c05Run(r *core.Run) {
 			if bs[i].sc.Before(first) {
 				first = bs[i].sc
 			}
+		}
+		if first.Sub(now) > 24*time.Hour {
+			return // "for ever": the simulated clock (and the certificates) do not reach that far
 		}
 		r.Sim.SetNow(first.Add(time.Duration(t.Int(3, "c05.redeliver.off")) * time.Second).Add(-s.Cfg.Skew))
 		r.Fault("redelivery_after_expiry")
